@@ -1633,3 +1633,14 @@ func identOfExpr(e ast.Expr) *ast.Ident {
 	id, _ := ast.Unparen(e).(*ast.Ident)
 	return id
 }
+
+// EvalUnder evaluates a boolean expression under a valuation of the tracked variables: +1 true, -1 false, 0 unknown.
+func (g *Graph) EvalUnder(e ast.Expr, v Val) int {
+	switch g.eval(e, v) {
+	case tvT:
+		return 1
+	case tvF:
+		return -1
+	}
+	return 0
+}
